@@ -1,6 +1,6 @@
 pub use super::types::{ByteCode, CelStackValue, JmpWhen, RsCallable};
 use crate::{types::CelByteCode, CelValueDyn};
-use std::{collections::HashMap, fmt};
+use std::fmt;
 
 use crate::{
     context::construct_type, utils::ScopedCounter, BindContext, CelContext, CelError, CelResult,
@@ -319,22 +319,21 @@ impl<'a> Interpreter<'a> {
                     }
 
                     v.reverse();
-                    stack.push_val(v.into());
+                    stack.push_val(CelValue::list_of(v));
                 }
                 ByteCode::MkDict(size) => {
-                    let mut map = HashMap::new();
+                    let mut entries = Vec::new();
 
                     for _ in 0..*size {
-                        let key = if let CelValue::String(key) = stack.pop_val()? {
-                            key
-                        } else {
-                            return Err(CelError::value("Only strings can be used as Object keys"));
-                        };
+                        let key = stack.pop_val()?;
+                        let value = stack.pop_val()?;
 
-                        map.insert(key, stack.pop_val()?);
+                        entries.push((key, value));
                     }
 
-                    stack.push_val(map.into());
+                    // entries come off the stack last to first; restore source order
+                    entries.reverse();
+                    stack.push_val(CelValue::map_of(entries));
                 }
                 ByteCode::Index => {
                     let index = stack.pop_val()?;
